@@ -426,6 +426,8 @@ func runC08(c *Ctx, r *Report) {
 	c08R6(c, r, "C08.R6")
 	c02R6(c, r, "C08.R8")      // a compiled handler chain cached across connections would capture one connection's continuation
 	c10R5(c, r, "C08.R9")      // the shared round-robin position advances by one atomic read-modify-write per probe
+	c08QuicAddr(c, r, "C08.R11")
+	c09R6(c, r, "C08.R12") // a UDP client never reads another client's datagram: queued datagram records do not alias
 	c17Handle(c, r, "C08.R10") // per-connection state of a handler (the throttle's own limiter) is built per connection, only the handler-wide limiter is shared
 	c13R3(c, r, "C08.R7")      // the hand-off release discipline is also a C08 obligation (buffer shared across connections)
 }
@@ -635,6 +637,73 @@ func c08R2(c *Ctx, r *Report, rule string) {
 							}
 						}
 					}
+				}
+			}
+		}
+	}
+	// objects that hang off the provisioned configuration (a value loaded from a field of a configuration struct:
+	// an upstream's TLS config, a matcher's compiled state) are shared by all connections wherever per-connection
+	// code gets hold of them - also in helpers, also when the configuration object itself came out of a call
+	isConfigStruct := func(t types.Type) bool {
+		st, ok := t.Underlying().(*types.Struct)
+		if !ok || !strings.HasPrefix(typeStr(t), "modules/") && !strings.HasPrefix(typeStr(t), "layer4.") {
+			return false
+		}
+		for i := 0; i < st.NumFields(); i++ {
+			if strings.Contains(st.Tag(i), "json:") {
+				return true
+			}
+		}
+		return false
+	}
+	var fromConfigField func(v ssa.Value, seen map[ssa.Value]bool) string
+	fromConfigField = func(v ssa.Value, seen map[ssa.Value]bool) string {
+		if v == nil || seen[v] {
+			return ""
+		}
+		seen[v] = true
+		switch x := v.(type) {
+		case *ssa.Phi:
+			for _, e := range x.Edges {
+				if w := fromConfigField(e, seen); w != "" {
+					return w
+				}
+			}
+		case *ssa.ChangeType:
+			return fromConfigField(x.X, seen)
+		case *ssa.UnOp:
+			if x.Op != token.MUL {
+				return ""
+			}
+			if fa, ok := x.X.(*ssa.FieldAddr); ok && isConfigStruct(deref(fa.X.Type())) {
+				if _, isPtr := x.Type().Underlying().(*types.Pointer); isPtr {
+					return namedName(deref(fa.X.Type())) + "." + fieldName(deref(fa.X.Type()), fa.Field)
+				}
+			}
+			if al, ok := x.X.(*ssa.Alloc); ok {
+				for _, sv := range storesTo(al) {
+					if w := fromConfigField(sv, seen); w != "" {
+						return w
+					}
+				}
+			}
+		}
+		return ""
+	}
+	for _, fn := range sortedFuncs(reach) {
+		for _, ci := range callsIn(fn) {
+			cc := ci.Common()
+			t := cc.StaticCallee()
+			if t == nil {
+				continue
+			}
+			for pi, site := range sum[t] {
+				if pi >= len(cc.Args) {
+					continue
+				}
+				if w := fromConfigField(cc.Args[pi], map[ssa.Value]bool{}); w != "" {
+					nviol++
+					r.bad(rule, fname(fn), "callee "+fname(t)+" writes through "+w, c.ipos(ci), fmt.Sprintf("per-connection code passes what %s holds - an object of the provisioned configuration, shared by all connections - to %s, which stores through that parameter at %s: one connection's values leak into the others and concurrent connections race", w, fname(t), site))
 				}
 			}
 		}
@@ -1054,6 +1123,21 @@ func c09R2(c *Ctx, r *Report, rule string) {
 			case *ssa.MapUpdate:
 				n++
 				r.check(isAddrString(x.Key, "layer4.packet", "addr"), rule, name, fmt.Sprintf("insert#%d", n), c.ipos(x), "inserted under the datagram's source address string", "the association is stored under a key that is not <datagram addr>.String(): later datagrams of the client do not find it")
+				// an entry is written only where the lookup found none: an existing entry - also one whose association
+				// has just ended - is removed by its own end-of-association notification; overwriting it lets that
+				// pending notification remove the new association, and the client's later datagrams start a second
+				// one next to it
+				missed := false
+				for _, cd := range edgeConds(x.Block()) {
+					if ex, ok := cd.V.(*ssa.Extract); ok && ex.Index == 1 && !cd.Truth {
+						if lk, ok := ex.Tuple.(*ssa.Lookup); ok && lk.CommaOk {
+							if _, isMap := lk.X.Type().Underlying().(*types.Map); isMap {
+								missed = true
+							}
+						}
+					}
+				}
+				r.check(missed, rule, name, fmt.Sprintf("insert#%d only after a miss", n), c.ipos(x), "the entry is written on the not-found edge of the table lookup", "the association table entry is written where the lookup may have found an entry (the write is not on the lookup's not-found edge): an association that still has its end notification pending is overwritten, the notification then removes the new one, and the client ends up with two live virtual connections")
 			case *ssa.Call:
 				if calleeID(x) == "builtin delete" {
 					n++
@@ -2649,4 +2733,61 @@ func c09Reader(c *Ctx, r *Report, rule string) {
 		problems = append(problems, fmt.Sprintf("the evaluation did not exercise all outcomes (datagrams %d, timeouts %d, fatal errors %d)", datagrams, skipped, ended))
 	}
 	r.check(len(problems) == 0, rule, name, "socket reader", c.pos(fn.Pos()), fmt.Sprintf("%d paths: %d datagrams, %d timeouts skipped, %d fatal errors", len(paths), datagrams, skipped, ended), strings.Join(dedup(problems), "; "))
+}
+
+// c08QuicAddr: the QUIC matcher lets quic-go parse the datagram through an in-memory packet pipe. quic-go keeps a
+// process-wide registry of transports keyed by the local address of their packet conn and panics ("connection
+// already exists") when a second transport is started on an address that is still registered. The pipe's local
+// address therefore has to be made for each evaluation: it must not come from the matcher's fields or a package
+// variable, which every concurrent connection shares.
+func c08QuicAddr(c *Ctx, r *Report, rule string) {
+	r.rule(rule, "QUIC matcher: the local address given to the in-memory packet pipe of each evaluation is an object created in that evaluation (never a field of the matcher or a package variable shared by concurrent connections - quic-go panics when two live transports have the same local address)", 1)
+	fnName := "modules/l4quic.(*MatchQUIC).Match"
+	fn := c.Fn(fnName)
+	if fn == nil {
+		r.bad(rule, fnName, "exists", "-", "function not found")
+		return
+	}
+	n := 0
+	for _, h := range sortedFuncs(c.reachSync(fn)) {
+		if h.Pkg != fn.Pkg {
+			continue
+		}
+		for _, ci := range callsIn(h) {
+			cal := ci.Common().StaticCallee()
+			if cal == nil || cal.Pkg != fn.Pkg || len(ci.Common().Args) == 0 {
+				continue
+			}
+			// the pipe constructor: takes net.Addr values and returns packet conns
+			takesAddr := false
+			for _, p := range cal.Params {
+				if strings.HasSuffix(typeStr(p.Type()), "net.Addr") {
+					takesAddr = true
+				}
+			}
+			if !takesAddr || !strings.Contains(strings.ToLower(cal.Name()), "pipe") {
+				continue
+			}
+			for i, a := range ci.Common().Args {
+				if i >= len(cal.Params) || !strings.HasSuffix(typeStr(cal.Params[i].Type()), "net.Addr") {
+					continue
+				}
+				if cst, isConst := a.(*ssa.Const); isConst && cst.Value == nil {
+					continue // nil address
+				}
+				n++
+				var shared []string
+				for _, o := range c.originsIP(h, a, 0) {
+					switch o.Kind {
+					case "field", "fieldaddr", "global":
+						shared = append(shared, o.Kind+":"+o.Desc)
+					}
+				}
+				r.check(len(shared) == 0, rule, fname(h), fmt.Sprintf("pipe address#%d", n), c.ipos(ci), "made for this evaluation", "the pipe's local address comes from "+strings.Join(dedup(shared), ", ")+", which concurrent evaluations share: the second of two simultaneous QUIC-looking datagrams makes quic-go panic (connection already exists) and the process dies")
+			}
+		}
+	}
+	if n == 0 {
+		r.bad(rule, fnName, "pipe address", c.pos(fn.Pos()), "undecided: the packet pipe of the QUIC matcher was not found")
+	}
 }
